@@ -1,4 +1,5 @@
 use crate::error::{Converter, WRONG_OFFSET};
+use crate::xml::E57Tag;
 use crate::paged_reader::PagedReader;
 use crate::paged_writer::PagedWriter;
 use crate::{Error, Result};
@@ -48,7 +49,7 @@ impl Blob {
     }
 
     pub(crate) fn from_parent_node(tag_name: &str, parent_node: &Node) -> Result<Option<Self>> {
-        if let Some(node) = &parent_node.children().find(|n| n.has_tag_name(tag_name)) {
+        if let Some(node) = &parent_node.children().find(|n| n.is_e57_tag(tag_name)) {
             Ok(Some(Self::from_node(node)?))
         } else {
             Ok(None)
